@@ -242,6 +242,8 @@ func init() {
 		rule{name: "paths:template-extra-param", kinds: []string{"Paths"}, expect: always(""), apply: func(n metamodel.Node, d M, _ int) bool { return templateMismatch(n, d, 0) }},
 		rule{name: "paths:template-missing-param", kinds: []string{"Paths"}, expect: always(""), apply: func(n metamodel.Node, d M, _ int) bool { return templateMismatch(n, d, 1) }},
 		rule{name: "paths:template-renamed-param", kinds: []string{"Paths"}, expect: always(""), apply: func(n metamodel.Node, d M, _ int) bool { return templateMismatch(n, d, 2) }},
+		rule{name: "paths:template-param-missing-in-first-operation", kinds: []string{"Paths"}, expect: always(""), apply: func(n metamodel.Node, _ M, _ int) bool { return paramMissingInOneOperation(n, true) }},
+		rule{name: "paths:template-param-missing-in-last-operation", kinds: []string{"Paths"}, expect: always(""), apply: func(n metamodel.Node, _ M, _ int) bool { return paramMissingInOneOperation(n, false) }},
 		rule{name: "paths:no-leading-slash", kinds: []string{"Paths"}, expect: always(""), apply: func(n metamodel.Node, _ M, _ int) bool {
 			n.Obj["noslash"] = M{"get": M{"responses": M{"200": M{"description": "d"}}}}
 			return true
@@ -447,6 +449,76 @@ func templateMismatch(n metamodel.Node, _ M, v int) bool {
 			}
 			return renamed
 		}
+	}
+	return false
+}
+
+// paramMissingInOneOperation declares the first template variable on every operation of a path item
+// (instead of on the path item) except one: the first or the last in method order. At least two
+// operations exist afterwards, so siblings that do declare it surround the one that does not.
+func paramMissingInOneOperation(n metamodel.Node, first bool) bool {
+	for _, tpl := range jv.Keys(n.Obj) {
+		if !strings.Contains(tpl, "{") {
+			continue
+		}
+		pi, _ := n.Obj[tpl].(M)
+		if pi == nil || pi["$ref"] != nil {
+			continue
+		}
+		name := tpl[strings.Index(tpl, "{")+1 : strings.Index(tpl, "}")]
+		var decl M
+		take := func(holder M) {
+			l, _ := holder["parameters"].([]any)
+			var nl []any
+			for _, p := range l {
+				if pm, ok := p.(M); ok && pm["in"] == "path" && pm["name"] == name {
+					if decl == nil {
+						decl = pm
+					}
+					continue
+				}
+				nl = append(nl, p)
+			}
+			if nl == nil {
+				delete(holder, "parameters")
+			} else {
+				holder["parameters"] = nl
+			}
+		}
+		take(pi)
+		var ops []string
+		for _, m := range docgen.Methods {
+			if op, ok := pi[m].(M); ok {
+				take(op)
+				ops = append(ops, m)
+			}
+		}
+		if decl == nil || len(ops) == 0 {
+			return false
+		}
+		for _, extra := range []string{"delete", "options", "patch"} {
+			if len(ops) >= 3 {
+				break
+			}
+			if _, ok := pi[extra]; !ok {
+				pi[extra] = M{"responses": M{"200": M{"description": "d"}}}
+				ops = append(ops, extra)
+			}
+		}
+		sort.Strings(ops)
+		victim := ops[len(ops)-1]
+		if first {
+			victim = ops[0]
+		}
+		for _, m := range ops {
+			if m == victim {
+				continue
+			}
+			op := pi[m].(M)
+			l, _ := op["parameters"].([]any)
+			op["parameters"] = append(append([]any{}, l...), jv.Clone(decl))
+		}
+		return true
 	}
 	return false
 }
